@@ -2,3 +2,42 @@
 use super::*;
 
 include!(concat!(env!("AUTOSAR_DATA_VERIF_DIR"), "/harness/vk.rs"));
+
+// native replay body for the element ordering decided by engine E2: three packages that differ only in their name
+#[cfg(not(kani))]
+pub fn n_c14_element_order() {
+    use std::cmp::Ordering::*;
+    let mut names = std::vec::Vec::new();
+    for _ in 0..3 {
+        let len = vk::any_usize();
+        let mut v = std::vec::Vec::new();
+        for _ in 0..len {
+            v.push(vk::any_u8());
+        }
+        names.push(String::from_utf8(v).expect("VK_REPLAY_SHAPE"));
+    }
+    // three separate models so that equal names are possible
+    let mut elems = std::vec::Vec::new();
+    let mut keep = std::vec::Vec::new();
+    for n in &names {
+        let model = crate::AutosarModel::new();
+        model.create_file("f", crate::AutosarVersion::LATEST).expect("VK_REPLAY_SHAPE");
+        let pkgs = model.root_element().create_sub_element(crate::ElementName::ArPackages).expect("VK_REPLAY_SHAPE");
+        let e = pkgs.create_named_sub_element(crate::ElementName::ArPackage, n).expect("VK_REPLAY_SHAPE");
+        elems.push(e);
+        keep.push(model);
+    }
+    let a = &elems[0];
+    vk_check!(a.cmp(a) == Equal, "cmp(a, a) != Equal");
+    for (x, y, z) in [(0, 1, 2), (0, 2, 1), (1, 0, 2), (1, 2, 0), (2, 0, 1), (2, 1, 0)] {
+        let (xy, yx, yz, xz) = (elems[x].cmp(&elems[y]), elems[y].cmp(&elems[x]), elems[y].cmp(&elems[z]), elems[x].cmp(&elems[z]));
+        vk_check!(yx == xy.reverse(), "element comparison is not antisymmetric");
+        if xy != Greater && yz != Greater {
+            vk_check!(xz != Greater, "element comparison is not transitive");
+            if xy == Less || yz == Less {
+                vk_check!(xz == Less, "element comparison is not transitive");
+            }
+        }
+        vk_check!((xy == Equal) == (names[x] == names[y]), "cmp == Equal is not the same as equal item names");
+    }
+}
